@@ -65,8 +65,35 @@ def area_world(rng, sph, kind):
         f['max depth'] = d1
     frac = wg.num(rng, 0.1, 1.0)
     f['composition models'] = [{'model': 'uniform', 'compositions': [0], 'fractions': [frac]}]
+    # depth bounds as surfaces: the values listed at every polygon corner (and one or two further points) sample an affine function
+    # of the surface coordinates, which the piecewise linear interpolation reproduces; all four combinations number/surface
+    surf0 = surf1 = None
+    if kind != 'lattice' and rng.random() < 0.45 and not any(p[0] == 0.0 or p[1] == 0.0 for p in poly):
+        x0, y0, x1, y1 = wg.poly_bbox(poly)
+        w = max(x1 - x0, y1 - y0)
+        xm, ym = 0.5 * (x0 + x1), 0.5 * (y0 + y1)
+
+        def affine(base, amp):
+            bx, by = rng.uniform(-1, 1) * amp / w, rng.uniform(-1, 1) * amp / w
+            return (base, bx, by, xm, ym)
+
+        def table(fn):
+            pts = list(poly)
+            for _ in range(rng.randint(0, 2)):
+                pts.append(wg.point_in_poly_interior(rng, poly))
+            pts = [(wg.R(px), wg.R(py)) for px, py in pts]
+            return [[wg.R(fn[0])]] + [[wg.R(fn[0] + fn[1] * (px - fn[3]) + fn[2] * (py - fn[4])), [[px, py]]] for px, py in pts]
+        which = rng.choice(['max', 'min', 'both'])
+        base1 = d1 if d1 < 1e300 else wg.R(d0 + wg.num(rng, 5e4, 3e5))
+        if which in ('max', 'both'):
+            surf1 = affine(base1, 0.3 * (base1 - d0))
+            f['max depth'] = table(surf1)
+            d1 = base1
+        if which in ('min', 'both') and d0 > 0:
+            surf0 = affine(d0, min(0.3 * (base1 - d0), 0.8 * d0))
+            f['min depth'] = table(surf0)
     doc['features'] = [f]
-    return doc, {'ctx': ctx, 'poly': poly, 'd0': d0, 'd1': d1, 'frac': frac, 'lattice': lattice, 'ftype': ftype, 'kind': kind}
+    return doc, {'ctx': ctx, 'poly': poly, 'd0': d0, 'd1': d1, 'frac': frac, 'lattice': lattice, 'ftype': ftype, 'kind': kind, 'surf0': surf0, 'surf1': surf1}
 
 
 def area_points(rng, t, n):
@@ -79,6 +106,35 @@ def area_points(rng, t, n):
     out = []
     fpoly = [(Fraction(x), Fraction(y)) for x, y in poly]
     dtop = d1 if d1 < 1e300 else d0 + 5e5
+    surfaces = t.get('surf0') or t.get('surf1')
+
+    def local_bounds(sx, sy):
+        l0, l1 = d0, d1
+        if t.get('surf0'):
+            b, bx, by, xm, ym = t['surf0']
+            l0 = b + bx * (sx - xm) + by * (sy - ym)
+        if t.get('surf1'):
+            b, bx, by, xm, ym = t['surf1']
+            l1 = b + bx * (sx - xm) + by * (sy - ym)
+        return l0, l1
+
+    def local_depth(sx, sy):
+        """depth and expectation against the local bounds of a surface (rounding margin 1e-7 relative: skip)"""
+        l0, l1 = local_bounds(sx, sy)
+        unbounded = l1 > 1e300
+        if unbounded:
+            l1 = l0 + 5e5
+        r = rng.random()
+        if r < 0.4:
+            d = rng.uniform(l0, l1)
+        elif r < 0.8:
+            b = rng.choice([l0, l1])
+            d = b + rng.choice([-1, 1]) * rng.uniform(1e-4, 0.1) * (l1 - l0)
+        else:
+            d = rng.choice([l0 - rng.uniform(1, 1e4), l1 + rng.uniform(1, 1e5)])
+        if min(abs(d - l0), abs(d - l1)) < 1e-7 * max(abs(l1), 1.0) + 1e-3:
+            return None, None
+        return d, (l0 <= d and (unbounded or d <= l1))
     for _ in range(n):
         nontrivial = False
         # depth
@@ -151,9 +207,21 @@ def area_points(rng, t, n):
             # keep away from the margin also for the aliases
             if min(edge_margin(poly, qsx + k * 360.0, sy) for k in (0, 1, -1)) < 1e-9 * size:
                 continue
+            if surfaces:
+                # the surface is interpolated at the longitude alias that lies inside the polygon
+                ax = next((qsx + k * 360.0 for k in (0, 1, -1) if exact_contains(fpoly, Fraction(qsx) + k * 360, Fraction(sy)) != 0), sx)
+                d, din = local_depth(ax, sy)
+                if d is None or d < 0:
+                    continue
+                nontrivial = True
             out.append((qsx, sy, d, pin and din, nontrivial))
         else:
             pin = exact_contains(fpoly, Fraction(sx), Fraction(sy)) != 0
+            if surfaces:
+                d, din = local_depth(sx, sy)
+                if d is None or d < 0:
+                    continue
+                nontrivial = True
             out.append((sx, sy, d, pin and din, nontrivial))
     return out
 
